@@ -6,10 +6,11 @@ import re
 
 from typing import Any
 
-from ..charclass import EITHER, S, L, bad_identifier_chars, members
+from ..charclass import EITHER, I, S, L, bad_identifier_chars, members
 from ..astutil import norm
 from ..core import PKG, Report
-from ..domain import IDENT
+from ..domain import CONST, ENUM, IDENT, NUM, WORD
+from ..jinja_interp import expr_text
 from .registries import check_module_files, check_registries
 
 LEVEL = ("(a) validity: abstract interpretation of the naming pipeline over sets of code points - every return path of "
@@ -17,6 +18,8 @@ LEVEL = ("(a) validity: abstract interpretation of the naming pipeline over sets
          "EnumProperty.values_from_list is shown to yield first in ID_Start, rest in ID_Continue, non-empty, not a keyword, "
          "for ALL strings (exhaustive over 0x110000 code points, not sampled); (b) every field annotated "
          "PythonIdentifier/ClassName only ever receives constructor results (interprocedural label analysis); "
+         "(b') every printed expression standing at an identifier-required position of a generated line (decided from the generated "
+         "text around it) is reached only by text labelled IDENT / CONST / ENUM / WORD / NUM; "
          "(c) uniqueness scopes: keyed registry stores dominated by membership tests leading to diagnostics, conflict "
          "resolution followed by re-checks (CFG dominance / path rules).")
 
@@ -27,7 +30,10 @@ def run(rep: Report, ctx: Any) -> str:
     t = ctx.tables
     rep.rule("R09.1", "for all input strings: each return path of the name constructors and each enum member name is a "
                       "valid, non-keyword identifier (first in ID_Start, rest in ID_Continue, non-empty)")
-    rep.rule("R09.2", "fields annotated PythonIdentifier / ClassName only ever receive results of those constructors")
+    rep.rule("R09.2", "fields annotated PythonIdentifier / ClassName only ever receive results of those constructors; every template "
+                      "hole that prints such a field carries constructor results only; every identifier-required position of the "
+                      "generated code (assignment / annotation target, keyword, parameter, attribute, def / class / import / for name) "
+                      "receives identifier material only, whatever expression the template prints there")
     rep.assumptions += [
         "config.field_prefix matches [A-Za-z][A-Za-z0-9_]* and prefix+name does not spell a keyword (the user's own configuration)",
         "CPython's str.isidentifier / re \\w / case mappings tabulated over all code points are the definition of validity",
@@ -70,9 +76,12 @@ def run(rep: Report, ctx: Any) -> str:
     stores = [s for s in ch.stores if s[0] in returned]
     rep.floor("enum_member_stores", len(stores), 3)
     seen: dict[str, int] = {}
-    for cont, k, cond, line in stores:
-        kind = "int" if f"isinstance({vv}, int)" in cond and f"not(isinstance({vv}, int))" not in cond else "str"
-        sub = "alpha" if f"& {vv} and {vv}[0].isalpha()" in cond or cond.endswith(f"{vv}[0].isalpha()") else "positional"
+    for cont, k, cond, line, env in stores:
+        # the path is classified by what is known of the member value on it (however the tests that establish it are written):
+        # an int / a string that starts with a letter / any other string
+        val = env.get(vv)
+        kind = "int" if isinstance(val, I) else "str"
+        sub = "alpha" if isinstance(val, S) and not val.empty and not (val.first & ~ch.ALPHA) else "positional"
         name = f"EnumProperty.values_from_list::member-name[{kind}" + (f",{sub}" if kind == "str" else "") + "]"
         seen[name] = seen.get(name, 0) + 1
         key = name + (f"#{seen[name]}" if kind == "int" else "")
@@ -112,24 +121,123 @@ def run(rep: Report, ctx: Any) -> str:
                       f"(written at {it.field_writes.get((c.qual, fname), [])[:4]})",
                       where=f"{c.module.rel}:{c.node.lineno}", lhs=sorted(flow.labels), rhs="{IDENT}")
     rep.floor("identifier_typed_fields", n_f, 18)
-    # names emitted by templates in CODE through *.python_name / class names carry IDENT only
-    n_e = 0
+    # (b) holes that read an identifier-typed attribute (python_name / class name / module name), wherever they are printed in CODE
+    #     (binding or reading position, alone or as a piece of a larger expression / `set` variable), carry IDENT only
+    n_h = 0
     for e in ji.emissions.values():
         if e.kind != "CODE" or not e.labels:
             continue
         # (a template `set` variable is canonical and reads as its parenthesised definition, e.g. `(model.class_info.module_name)`)
         m_ = re.fullmatch(r"\(([\w.\[\]*]+)\)", e.hole)  # a set variable bound to a plain attribute chain
         chain = m_.group(1) if m_ else e.hole
-        if chain.endswith(("python_name", "class_info.name", "module_name", "class_name")) and e.hole == e.expr and re.fullmatch(r"[\w.\[\]*()+ ]+", chain):
-            n_e += 1
+        if chain.endswith(("python_name", "class_info.name", "module_name", "class_name")) and re.fullmatch(r"[\w.\[\]*()+ ]+", chain):
+            n_h += 1
             extra = e.labels - {IDENT}
-            rep.check(not extra, "R09.2", f"{e.template}::{e.macro}::{e.expr}#{e.ordinal}",
-                      f"a name position receives text labelled {sorted(extra)}", where=f"{e.template}:{e.line}",
+            rep.check(not extra, "R09.2", f"{e.template}::{e.macro}::{e.expr}#{e.ordinal}" + ("" if e.hole == e.expr else f"<{e.hole}>"),
+                      f"a printed name receives text labelled {sorted(extra)}", where=f"{e.template}:{e.line}",
                       lhs=sorted(e.labels), rhs="{IDENT}")
-    rep.floor("name_emissions", n_e, 60)
+    rep.indexed["identifier_attribute_holes"] = n_h
+    # (c) identifier-required positions of the generated code (assignment / annotation target, keyword or parameter name, attribute,
+    #     name after def / class / import / as / for), found by what the template writes around the printed expression on the same
+    #     generated line - whatever expression, `set` variable or macro parameter is printed there, and whatever it is called:
+    #     every piece of text that can reach such a position is made of identifier material only
+    n_e = 0
+    by_site: dict[tuple, list[Any]] = {}
+    for e in ji.emissions.values():
+        by_site.setdefault((e.template, e.macro, e.expr, e.ordinal), []).append(e)
+    for tname, macro, node, kind in name_positions(ctx.jinja):
+        et = expr_text(node)
+        ordinal = ji.ordinals.get((tname, macro, et), {}).get(id(node))
+        es = [e for e in by_site.get((tname, macro, et, ordinal), []) if e.kind == "CODE" and e.labels]
+        if not es:
+            continue  # never reached, or not in a code context (docstring, comment)
+        n_e += 1
+        bad = sorted({(e.hole, l) for e in es for l in e.labels - NAME_MATERIAL})
+        rep.check(not bad, "R09.2", f"{tname}::{macro}::{et}#{ordinal}@{kind}",
+                  f"text that is not identifier material reaches a {kind} position of the generated code: "
+                  f"{[f'{h} labelled {l}' for h, l in bad][:4]}", where=f"{tname}:{getattr(node, 'lineno', 0)}",
+                  lhs=sorted({l for e in es for l in e.labels}), rhs=sorted(NAME_MATERIAL))
+    rep.floor("name_emissions", n_e, 80)
+    rep.not_decided.append("WORD text (\\w-words from snake_case & co.) is admitted at name positions: validity of the two producers that "
+                           "occur (enum member names, check_<snake_case(class)>) is decided by R09.1, other producers are not distinguished")
 
     # ---- R09.3 -------------------------------------------------------------------------------------------------------
     check_registries(rep, ctx, "R09.3")
     check_module_files(rep, ctx, "R09.3")
     rep.not_decided.append("that disambiguation always succeeds when it could; only that it is attempted or diagnosed")
     return LEVEL
+
+
+# ---- identifier-required positions of the generated code -------------------------------------------------------------------------
+# text labels that consist of identifier characters: validated identifiers, literal text of the repository's own templates / sources,
+# values of the repository's own enums, \w-words of the naming helpers, digits
+NAME_MATERIAL = frozenset({IDENT, CONST, ENUM, WORD, NUM})
+_PH = "\ue000"   # stands for another printed expression on the same line
+_UNKNOWN = "\x00"  # the text before is not known (branches that end differently)
+_W = rf"(?:\w|{_PH})"
+
+
+def position_kind(before: str, after: str) -> str | None:
+    """What the Python grammar requires of a token, given the text of its line before and after it (None: no identifier required,
+    or not recognisable).  Only the generated text decides - not how the template produces it."""
+    ends_token = rf"^{_W}*\s*"
+    if re.match(ends_token + r"(=(?!=)|:(?![=:])|[-+*/%@&|^]=)", after) and re.fullmatch(rf"\s*(?:{_W}|\.)*", before):
+        return "target"      # NAME = ... / NAME: T ... / obj.NAME += ...  at the start of a line
+    if re.search(rf"[(,]\s*\*{{0,2}}{_W}*$", before):
+        if re.match(ends_token + r"=(?!=)", after):
+            return "keyword"  # f(..., NAME=...)
+        if re.match(ends_token + r":(?![=:])", after):
+            return "parameter"  # def f(..., NAME: T
+    if re.search(rf"(?<![\d.])\.{_W}*$", before):
+        return "attribute"   # obj.NAME / from .pkg.NAME import
+    if re.search(rf"(^|[^\w.{_PH}])(def|class|import|as|for|global|nonlocal|del)\s+{_W}*$", before):
+        return "binder"      # def NAME / class NAME / import NAME / as NAME / for NAME
+    return None
+
+
+def name_positions(jx: Any) -> list[tuple[str, str, Any, str]]:
+    """(template, macro, printed expression node, kind) of every `{{ ... }}` that stands at an identifier-required position."""
+    from jinja2 import nodes
+
+    out: list[tuple[str, str, Any, str]] = []
+
+    def walk(body: list[Any], tname: str, macro: str, tail: str) -> str:
+        """tail: text of the current generated line so far; returns the tail after the body"""
+        for n in body:
+            if isinstance(n, nodes.Output):
+                kids = n.nodes
+                for i, c in enumerate(kids):
+                    if isinstance(c, nodes.TemplateData):
+                        tail = c.data.rsplit("\n", 1)[-1] if "\n" in c.data else tail + c.data
+                        continue
+                    after = ""
+                    for d in kids[i + 1:]:
+                        if isinstance(d, nodes.TemplateData):
+                            after += d.data
+                            if "\n" in d.data:
+                                break
+                        else:
+                            after += _PH
+                    kind = position_kind(tail, after.split("\n", 1)[0]) if _UNKNOWN not in tail else None
+                    if kind is not None:
+                        out.append((tname, macro, c, kind))
+                    tail += _PH
+            elif isinstance(n, nodes.If):
+                ends = [walk(n.body, tname, macro, tail)]
+                for el in n.elif_:
+                    ends.append(walk(el.body, tname, macro, tail))
+                ends.append(walk(n.else_, tname, macro, tail) if n.else_ else tail)
+                tail = ends[0] if all(x == ends[0] for x in ends) else _UNKNOWN
+            elif isinstance(n, nodes.For):
+                end = walk(n.body, tname, macro, tail)
+                tail = tail if end == tail else _UNKNOWN
+            elif isinstance(n, nodes.Macro):
+                walk(n.body, tname, n.name, "")
+            elif isinstance(n, (nodes.With, nodes.Scope, nodes.CallBlock, nodes.FilterBlock, nodes.AssignBlock)):
+                tail = walk(getattr(n, "body", []), tname, macro, tail)
+        return tail
+
+    for tname, ti in sorted(jx.templates.items()):
+        if ti.lang == "python":  # the grammar applied is Python's
+            walk(ti.tree.body, tname, "<top>", "")
+    return out
